@@ -269,6 +269,12 @@ func c16Site(kind, msg string) string {
 		w = w[:3]
 	}
 	slug := strings.Trim(c16NonWord.ReplaceAllString(strings.Join(w, "-"), "-"), "-")
+	switch {
+	case strings.HasPrefix(msg, "duplicate value "):
+		return "matrix-duplicate-value"
+	case strings.HasPrefix(msg, "value ") && strings.Contains(msg, "in \"exclude\" does not match"):
+		return "matrix-exclude-value"
+	}
 	if i := strings.IndexAny(msg, "\r\n"); i >= 0 {
 		// a line break inside the rendering of an object type {key: type; ...}
 		pre := c16QuotedRe.ReplaceAllString(msg[:i], "")
@@ -732,10 +738,45 @@ func (k *c16Checker) record(errs []*actionlint.Error, src string) {
 			k.setAdd("echo_formats", sk)
 		}
 		k.setAdd("message_formats", sk)
+		for i := range c16RequiredSites {
+			if c16RequiredSites[i].re.MatchString(msg) {
+				k.cnt("site_" + c16RequiredSites[i].name)
+			}
+		}
 	}
 	if len(errs) > 0 {
 		k.cnt("workflows_with_diagnostics")
 	}
+}
+
+// c16RequiredSites are the printers of composite / listed user values (RawYAMLObject.String,
+// RawYAMLArray.String, RawYAMLString.String, ObjectType.String, quotes / sortedQuotes / quotesBuilder
+// users fed with user text). Each must be observed with nasty content (an escaped or raw special
+// character, or the generator's marker) inside the printed value in every run; otherwise the run is
+// inconclusive.
+const c16NastyRe = `(?:\\[nrtxuUeafv0"\\]|zq|ZQ|[^\x20-\x7e])`
+
+var c16RequiredSites = []struct {
+	name string
+	re   *regexp.Regexp
+}{
+	{"matrix_duplicate_mapping", regexp.MustCompile(`(?s)^duplicate value \{.*` + c16NastyRe + `.* is found in matrix`)},
+	{"matrix_duplicate_sequence", regexp.MustCompile(`(?s)^duplicate value \[.*` + c16NastyRe + `.* is found in matrix`)},
+	{"matrix_duplicate_scalar", regexp.MustCompile(`(?s)^duplicate value ".*` + c16NastyRe + `.* is found in matrix`)},
+	{"matrix_exclude_nomatch_mapping", regexp.MustCompile(`(?s)^value \{.*` + c16NastyRe + `.* in "exclude" does not match`)},
+	{"matrix_exclude_nomatch_sequence", regexp.MustCompile(`(?s)^value \[.*` + c16NastyRe + `.* in "exclude" does not match`)},
+	{"matrix_exclude_possible_values", regexp.MustCompile(`(?s) combinations\. possible values are .*[\{\[].*` + c16NastyRe)},
+	{"matrix_nested_mapping_key", regexp.MustCompile(`(?s)^(?:duplicate value|value) [\[\{].*: \{"(?:[^"\\]|\\.)*` + c16NastyRe)},
+	{"matrix_exclude_unknown_key", regexp.MustCompile(`(?s)in "exclude" section does not exist in matrix\. available matrix configurations are .*` + c16NastyRe)},
+	{"needs_cycle", regexp.MustCompile(`(?s)detected cycle is .*` + c16NastyRe)},
+	{"dispatch_options", regexp.MustCompile(`(?s)is not included in its options .*` + c16NastyRe)},
+	{"config_variables", regexp.MustCompile(`(?s)defined configuration variables in actionlint\.yaml are .*` + c16NastyRe)},
+	{"config_labels", regexp.MustCompile(`(?s)is unknown\. available labels are .*` + c16NastyRe)},
+	{"action_inputs", regexp.MustCompile(`(?s)available inputs are .*` + c16NastyRe)},
+	{"action_required_inputs", regexp.MustCompile(`(?s)all required inputs are .*` + c16NastyRe)},
+	{"workflow_call_inputs", regexp.MustCompile(`(?s)defined inputs are .*` + c16NastyRe)},
+	{"workflow_call_secrets", regexp.MustCompile(`(?s)defined secrets are .*` + c16NastyRe)},
+	{"object_type", regexp.MustCompile(`(?s)in object type \{.*` + c16NastyRe)},
 }
 
 // ---------------------------------------------------------------------------
@@ -1224,6 +1265,9 @@ func runC16(r *Run) {
 		floor("cli_color_headers_parsed_back", int64(r.Q(50, 1000)))
 		floor("corpus_cases", 100)
 		floor("project_cases_linted", int64(r.Q(600, 15000)))
+		for i := range c16RequiredSites {
+			floor("site_"+c16RequiredSites[i].name, int64(r.Q(1, 25)))
+		}
 		if n := r.SetLen("echo_formats"); n < 60 {
 			r.Inconclusive(fmt.Sprintf("coverage floor not met: only %d distinct message formats echoing user text were observed (< 60)", n))
 		}
